@@ -28,6 +28,20 @@ impl SchemaMut {
 	}
 }
 
+#[cfg(ten0_serde_avro_fast_verif)]
+impl SchemaMut {
+	/// Verification hook: the parsing canonical form as text
+	#[doc(hidden)]
+	pub fn verif_canonical_form(&self) -> Result<String, SchemaError> {
+		let mut state = WriteCanonicalFormState {
+			w: ErrorConversionWriter(String::new()),
+			named_type_written: vec![false; self.nodes.len()],
+		};
+		state.write_canonical_form(self, SchemaKey::from_idx(0))?;
+		Ok(state.w.0)
+	}
+}
+
 struct WriteCanonicalFormState<W> {
 	w: ErrorConversionWriter<W>,
 	named_type_written: Vec<bool>,
